@@ -365,6 +365,22 @@ def pick_selector(g, env, a):
     names = [n for n, v in env.vars.items() if not v.get('fuel')]
     if not names:
         return None
+    al = sorted(nm for nm, vv in se.vars.items() if vv.get('alias_n') and vv.get('aname'))
+    if al and not (a.merge_safe and a.adepth >= 1 and 'merge-subscript-dep' not in a.allow):
+        # element selector subscripted by an associate name of an enclosing block that denotes n
+        lo, hi = se.nval_range
+        elig = [m for m in names if not env.vars[m].get('dt') and env.vars[m]['dims'] and len(env.vars[m]['dims']) == 1
+                and env.vars[m]['dims'][0][0] <= lo
+                and (env.vars[m]['dims'][0][1] == 'n' or (isinstance(env.vars[m]['dims'][0][1], int) and env.vars[m]['dims'][0][1] >= hi))]
+        if elig and g.chance(35):
+            m = g.pick(elig)
+            v = env.vars[m]
+            base = B.designator_for(se, m)
+            parts = [list(x) for x in base[1]]
+            parts[-1][1] = [var(g.pick(al))]
+            a.feats.add('sel-subscript:assoc-name')
+            feat_src = ':component' if v.get('path') else (':assoc-of-assoc' if v.get('aname') else '')
+            return ['d', parts], {'type': v['type'], 'dims': None, 'ro': v.get('ro', False)}, 'sel:elem' + feat_src
     kinds = ['scalar'] * 3 + ['elem'] * 3 + ['whole'] * 2 + ['section'] * 4 + ['alias-n'] * 2
     if not (a.merge_safe and a.adepth >= 1):
         # (do_merge_associates raises AttributeError on value selectors of nested blocks: expr.scope -> rejected_by_loki)
@@ -434,7 +450,7 @@ def pick_selector(g, env, a):
         lo, hi = se.nval_range
         elig = [m for m in c if any(dd[0] <= lo and (dd[1] == 'n' or (isinstance(dd[1], int) and dd[1] >= hi))
                                     for dd in env.vars[m]['dims'])]
-        if elig and g.chance(60):
+        if elig and g.chance(80):
             n = g.pick(elig)
     v = env.vars[n]
     feat_src = ':component' if v.get('path') else (':assoc-of-assoc' if v.get('aname') else '')
@@ -563,6 +579,12 @@ def gen_assoc_block(g, env, depth, nstmts, a, must_nest=0):
         new[name] = ent
     if not pairs:
         return None
+    if g.chance(30):
+        # an associate name that denotes n: used as loop bound and selector subscript further down
+        nm = a.fresh()
+        pairs.append([nm, var('n')])
+        new[nm] = {'type': 'int', 'dims': None, 'ro': True, 'alias_n': True, 'aname': True}
+        a.feats.add('sel:scalar')
     if a.merge_safe and 'merge-rescope-selector' not in a.allow:
         # known finding merge-rescope-selector: do_merge_associates re-scopes the selectors of every block into the
         # block itself, so a selector that mentions a variable with the name of an associate name of the SAME
@@ -639,12 +661,14 @@ def gen_do(g, env, depth, nstmts, a):
         return None
     lo = g.i(1, 3)
     trip = g.i(0, 3) if g.chance(10) else g.i(1, 3)
-    use_n = lo == 1 and g.chance(40)
+    use_n = lo == 1 and g.chance(30)
+    if not use_n and any(vv.get('alias_n') and vv.get('aname') for vv in env.vars.values()) and g.chance(45):
+        lo, use_n = 1, True      # loop up to an associate name that denotes n (see below)
     if use_n:
         env.active_loops[lv] = (1, 'n')
         hi_e = var('n')
         aliases = sorted(nm for nm, vv in env.vars.items() if vv.get('alias_n') and vv.get('aname'))
-        if aliases and g.chance(70):
+        if aliases and g.chance(85):
             hi_e = var(g.pick(aliases))
             a.feats.add('loop-bound:assoc-name')
         trip = 3
